@@ -120,9 +120,17 @@ fn build_core(rng: &mut StdRng, n: u64, max_block: usize) -> (Core, Vec<Vec<u8>>
             };
             (0..size).map(|_| rng.gen()).collect()
         };
-        match rng.gen_range(0..6) {
+        match rng.gen_range(0..7) {
             0 => {
                 core.reopen();
+            }
+            6 => {
+                // calls that write the header without signing anything new
+                let len = core.len();
+                if len > 0 {
+                    let s0 = rng.gen_range(0..len);
+                    core.clear(s0, s0 + 1);
+                }
             }
             1 | 2 => {
                 let b = mk(rng);
@@ -136,6 +144,23 @@ fn build_core(rng: &mut StdRng, n: u64, max_block: usize) -> (Core, Vec<Vec<u8>>
                 blocks.extend(bs);
             }
         }
+    }
+    // sometimes end with a reopen followed by a header-writing call that appends nothing
+    match rng.gen_range(0..4) {
+        0 => {
+            core.reopen();
+            let len = core.len();
+            if len > 0 {
+                core.clear(len - 1, len);
+            }
+            core.reopen();
+        }
+        1 => {
+            core.reopen();
+            core.make_read_only();
+            core.reopen();
+        }
+        _ => {}
     }
     (core, blocks)
 }
@@ -214,6 +239,9 @@ pub fn treecheck(args: &[String]) {
                         v
                     };
                     for i in idxs {
+                        if !core.has(i).unwrap_or(false) {
+                            continue; // cleared while the core was built: there is no block proof
+                        }
                         for start in [0u64, n / 2, n - 1] {
                             if start >= n { continue; }
                             let nodes = 0;
